@@ -18,6 +18,7 @@ case "${1:-}" in
       # the thorough tier first re-establishes what every verdict rests on: the instrumented copy
       # behaves like the original, and one seed is one execution (failures here are harness trouble)
       ./bin/verifctl selftest instrumenter || { echo "check.sh: selftest instrumenter failed" >&2; exit 2; }
+      ./bin/verifctl selftest sim-constructs 120 || { echo "check.sh: selftest sim-constructs failed" >&2; exit 2; }
       ./bin/verifctl selftest instrumented-tests || { echo "check.sh: selftest instrumented-tests failed" >&2; exit 2; }
       ./bin/verifctl selftest determinism 16 || { echo "check.sh: selftest determinism failed" >&2; exit 2; }
     fi
